@@ -52,10 +52,15 @@ def gen_workload(rng):
     for _ in range(nstores):
         cfgs.append({"budget": rng.choice([5, 10, 10, 20]), "gtp": rng.choice([0, 0, 5]), "nadh": rng.choice([0, 0, 4, 6]),
                      "max_debt": rng.choice([0, 0, 5, 10])})
+    for c in cfgs:
+        # sequential setup before the threads start: balances below capacity (so that regeneration/transfers-in are not
+        # no-ops at the cap), optionally a dormant store
+        c["pre"] = [(cur, rng.choice([0, 1, 2, 3])) for cur in CUR if rng.random() < 0.5]
+        c["dormant"] = rng.random() < 0.15
     nthreads = rng.choice([2, 2, 3])
     threads = []
     steps = 0
-    kind = rng.choice(["mixed", "mixed", "two_spends", "opposite_transfers", "spend_vs_transfer", "convert_vs_topup"])
+    kind = rng.choice(["mixed", "mixed", "two_spends", "opposite_transfers", "spend_vs_transfer", "convert_vs_topup", "regen_vs_debit"])
     for t in range(nthreads):
         ops = []
         for _ in range(rng.randint(1, 3)):
@@ -71,8 +76,10 @@ def gen_workload(rng):
                 op = ("convert", s, rng.choice([1, 2, 5]))
             elif r < 0.95 and nstores == 2:
                 op = ("transfer", s, 1 - s, rng.choice([1, 3, bud // 2 + 1, bud]), rng.choice(["ATP", "ATP", "NADH", "GTP"]))
-            elif r < 0.97:
+            elif r < 0.96:
                 op = ("reset", s)
+            elif r < 0.98:
+                op = (rng.choice(["dormant", "wake"]), s)
             else:
                 op = ("consume", s, 4, "ATP", True, 10)
             cost = 2 if op[0] == "transfer" else 1
@@ -85,10 +92,20 @@ def gen_workload(rng):
             steps += 1
         threads.append(ops)
     if kind == "opposite_transfers" and nstores == 2:
+        if rng.random() < 0.4:
+            cfgs[0]["dormant"] = cfgs[1]["dormant"] = True
         threads = [[("transfer", 0, 1, cfgs[0]["budget"] // 2 + 1, "ATP")], [("transfer", 1, 0, cfgs[1]["budget"] // 2 + 1, "ATP")]] + \
                   ([[("consume", 0, cfgs[0]["budget"], "ATP", False, 10)]] if nthreads == 3 else [])
     if kind == "spend_vs_transfer" and nstores == 2:
         threads = [[("consume", 0, cfgs[0]["budget"] - 1, "ATP", False, 10)], [("transfer", 0, 1, 3, "ATP"), ("transfer", 1, 0, 2, "ATP")]]
+    if kind == "regen_vs_debit":
+        cur = rng.choice(CUR)
+        cfgs[0].update(budget=10, gtp=6, nadh=6)
+        cfgs[0]["pre"] = [(cur, 4)]
+        cfgs[0]["dormant"] = False
+        debit = rng.choice([("consume", 0, 2, cur, False, 10), ("convert", 0, 2), ("consume", 0, 8, "ATP", False, 10)] +
+                           ([("transfer", 0, 1, 2, cur)] if nstores == 2 else []))
+        threads = [[("regenerate", 0, rng.choice([1, 3]), cur)], [debit]] + ([[("regenerate", 0, 1, cur)]] if nthreads == 3 else [])
     if kind == "convert_vs_topup":
         cfgs[0]["nadh"] = 6
         threads = [[("convert", 0, 4)], [("consume", 0, cfgs[0]["budget"] + 3, "ATP", True, 10)], [("consume", 0, 5, "NADH", False, 10)]][:max(2, nthreads)]
@@ -100,6 +117,11 @@ def make_stores(cfgs, wrap):
     stores = []
     for i, c in enumerate(cfgs):
         s = ATP_Store(c["budget"], gtp_budget=c["gtp"], nadh_reserve=c["nadh"], max_debt=c["max_debt"], silent=True)
+        from operon_ai.state.metabolism import EnergyType
+        for cur, amt in c.get("pre", []):
+            s.consume(amt, "setup", EnergyType[cur], priority=10)
+        if c.get("dormant"):
+            s.enter_dormancy()
         if wrap:
             s._lock = sched.SchedLock(s._lock, "store%d._lock" % i)
         stores.append(s)
@@ -121,6 +143,10 @@ def apply_op(stores, op, sink=None):
         return stores[op[1]].transfer_to(stores[op[2]], op[3], ET[op[4]])
     if k == "reset":
         return stores[op[1]].reset()
+    if k == "dormant":
+        return stores[op[1]].enter_dormancy()
+    if k == "wake":
+        return stores[op[1]].exit_dormancy()
     if k == "debit":      # first atomic step of a transfer: real transfer_to into a throw-away sink
         return stores[op[1]].transfer_to(sink, op[3], ET[op[4]])
     if k == "credit":     # second atomic step
@@ -129,7 +155,7 @@ def apply_op(stores, op, sink=None):
 
 
 def final_state(stores):
-    return tuple((s.atp, s.gtp, s.nadh, s._debt) for s in stores)
+    return tuple((s.atp, s.gtp, s.nadh, s._debt, s.get_state().value) for s in stores)
 
 
 def sequential_outcomes(cfgs, threads, cap=4000):
@@ -229,7 +255,7 @@ def run_schedule(ctx, cfgs, threads, policy, label, seqset, desc):
         return sc
     outcome = (tuple(sc.results), final_state(stores))
     if seqset is not None and outcome not in seqset:
-        neg = any(v < 0 for st in outcome[1] for v in st)
+        neg = any(v < 0 for st in outcome[1] for v in st[:4])
         ctx.violation("not-sequentially-equivalent",
                       "results %s / final balances %s are not producible by any sequential order of the calls%s" % (
                           outcome[0], outcome[1], " (negative balance)" if neg else ""),
